@@ -409,8 +409,9 @@ func Reproduce(c Candidate) (bool, string) {
 	}
 	var got *Result
 	// a data race shows up with some probability per run: the race-detector build is tried several times
+	// ... and so does an outcome that varies from run to run (the order in which the runtime hands out a map)
 	tries := 1
-	if strings.Contains(c.Sig, "data-race") {
+	if strings.Contains(c.Sig, "data-race") || strings.Contains(c.Sig, "varies") || strings.Contains(c.Sig, "depends-on-load-order") {
 		tries = 10
 	}
 	for t := 0; t < tries; t++ {
@@ -423,6 +424,12 @@ func Reproduce(c Candidate) (bool, string) {
 		p.Close()
 		if got != nil && got.Crash != "" {
 			return true, got.Crash
+		}
+		if got != nil && tries > 1 && tr.Events == "" {
+			var tv Verdict
+			if json.Unmarshal(got.Resp, &tv) == nil && (tv.Panic != "" || (!tv.OK && !tv.Out)) {
+				return true, tv.Detail
+			}
 		}
 	}
 	if got == nil {
